@@ -147,6 +147,12 @@ def check(case):
         for missed, mn, mx, clip, semi in _grid(case["gmax"]):
             res[(missed, mn, mx, clip, semi)] = _check_one(fasta, seq, pat, missed, mn, mx, clip, semi)
             ndig += 1
+        # the caller owns the returned sets: using one up must not change what a later identical request returns
+        key0 = sorted(res)[len(seq) % len(res)]
+        first = set(res[key0])
+        res[key0].clear()
+        res[key0] = _check_one(fasta, seq, pat, *key0)
+        require(res[key0] == first, "repeat-call-differs", f"seq={seq!r} enzyme={pat!r} {key0}: second identical digest differs after the first result was consumed")
         # monotonicity
         for (missed, mn, mx, clip, semi), g in res.items():
             par = f"seq={seq!r} enzyme={pat!r} missed={missed} min={mn} max={mx} clip={clip} semi={semi}"
@@ -162,6 +168,12 @@ def check(case):
     else:
         missed, mn, mx, clip, semi = case["missed"], case["min"], case["max"], case["clip"], case["semi"]
         g = _check_one(fasta, seq, pat, missed, mn, mx, clip, semi)
+        # the caller owns the returned set: using it up must not change what a later identical request returns
+        g_first = set(g)
+        g.clear()
+        g.add("#consumed")
+        g = _check_one(fasta, seq, pat, missed, mn, mx, clip, semi)
+        require(g == g_first, "repeat-call-differs", f"seq={seq!r} enzyme={pat!r}: second identical digest differs after the first result was consumed: {sorted(g ^ g_first)[:5]}")
         g2 = _check_one(fasta, seq, pat, missed + 1, mn, mx, clip, semi)
         require(g <= g2, "monotone-missed", f"seq={seq!r} enzyme={pat!r} missed={missed}: result shrinks with one more missed cleavage")
         g3 = _check_one(fasta, seq, pat, missed, mn, mx + 7, clip, semi)
